@@ -334,7 +334,7 @@ func vpH_C08_T_restart_leftover() {
 	H := time.Second
 	vpSetOpt("rand-fixed", 1)
 	s := &vpTermScn{H: H}
-	s.st = vpNewStore("g", 0)
+	s.st = vpNewStore("g", 3*H)
 	s.st.dialect = vpDialectNATS
 	s.st.write("env:old", "create", vpRecMk("old", "tok-old", 0), false, 0)
 	s.kv = vpHandle(s.st, "a")
@@ -359,7 +359,7 @@ func vpH_C08_T_restart_leftover() {
 	s.cb = &vpCallbacks{}
 	s.cb.install(s.e)
 	_ = s.e.Start(vpRootCtx())
-	time.Sleep(3 * time.Second) // the first acquisition round is over: follower with a watcher
+	time.Sleep(2 * time.Second) // the first acquisition round is over: follower with a watcher
 	vpQuiesce()
 	s.st.write("env:old", "delete", nil, true, 0)
 	go func() {
@@ -371,6 +371,7 @@ func vpH_C08_T_restart_leftover() {
 	time.Sleep(4 * time.Second)
 	vpQuiesce()
 	vpCover("C08.restart-leftover")
+	vpAssert("C02.claim-backed", vpClaimBacked(s.e, s.st, "a")) // more than a TTL after the race: a claim must be backed by a refreshed record
 	s.audit("after-restart")
 	_ = s.e.Stop()
 	vpQuiesce()
